@@ -196,7 +196,7 @@ class NetworkingThread:
                 pass
             else:
                 addr, data = incoming
-                if b"http://schemas.xmlsoap.org/ws/2005/04/discovery" in data:
+                if b"http://schemas.xmlsoap.org/ws/2005/04/discovery" in data and self._is_old_discovery_version(data):
                     continue  # older version of discovery standard, ignore completely.
                 logging.getLogger(commlog.DISCOVERY_IN).debug(data, extra={'ip_address': addr[0]})
                 try:
@@ -218,9 +218,28 @@ class NetworkingThread:
                 except Exception:  # noqa: BLE001
                     self._logger.error('_run_q_read: %s', traceback.format_exc())  # noqa: TRY400
 
+    @staticmethod
+    def _is_old_discovery_version(data: bytes) -> bool:
+        """Return True if this is a message of WS-Discovery 2005/04.
+
+        The namespace string alone says nothing: a 2009/01 message may name it anywhere (an unused namespace
+        declaration, a scope, a type namespace ...). The action decides.
+        """
+        try:
+            received_message = message_reader.read_received_message(data, validate=False)
+        except Exception:  # noqa: BLE001
+            return True  # not readable at all
+        action = received_message.action or ''
+        return action.startswith('http://schemas.xmlsoap.org/ws/2005/04/discovery')
+
     def _send_msg(self, q_msg: _EnqueuedMessage, s: socket.socket):
         msg = q_msg.msg
-        data = msg.created_message.serialize()
+        try:
+            data = msg.created_message.serialize()
+        except Exception:  # noqa: BLE001
+            # a message that cannot be serialized (e.g. invalid uri) must not end the sending thread
+            self._logger.exception('cannot serialize message for %s:%d', msg.addr, msg.port)
+            return
         self._logger.debug('send message %d bytes (%d) action=%s: to=%s:%r id=%s',
                            len(data),
                            q_msg.repeat,
